@@ -107,6 +107,56 @@ theorem chUpdate_keys_run (hpl : PlainHooks song root) (hns : NoSlurHooks song r
 
 end
 
+/-- the key-on write of FM channel `(bank, id)` -/
+def konWr (bank id : Nat) : Wr := Wr.mk 0x52 0 0x28 (kon bank id) .none
+
+section
+variable (d : Data) (song : Song) (root : List Event) (bank id : Nat) (hid : id < 3)
+
+include hid in
+/-- the key-on is the LAST WRITE of the update: whatever the update writes to the frequency (or
+any other) register of the channel, it writes before keying the note on -/
+theorem chUpdate_kon_last_run (hpl : PlainHooks song root) (hns : NoSlurHooks song root)
+    (n : Nat) (g : G) (c : Ch) (hc : ChOK root bank id c) (hg : g.err = none)
+    (s' : PState) (ws : List (List Event)) (hrun : ctRun song root n ⟨c.ps.core, c.ps.acc⟩ = some (s', ws)) :
+    (chUpdate d song n g c).1.err.isSome = true ∨
+      ((∃ e ∈ ws.flatten, e.type = ev_NOTE) → (chUpdate d song n g c).2.2.getLast? = some (konWr bank id)) := by
+  have hf := chTicks_follows d song root bank id hid hpl hns n g c hc hg s' _ hrun
+  unfold chUpdate
+  cases ht : chTicks d song n g c with
+  | mk g1 r1 =>
+    obtain ⟨c1, o1⟩ := r1
+    rw [ht] at hf
+    simp only
+    rcases hf with herr | ⟨_, _, a3, a4⟩
+    · simp only at herr
+      left
+      simp [chAfter, herr]
+    · simp only at a3 a4
+      cases hg1 : g1.err with
+      | some x => left; simp [chAfter, hg1]
+      | none =>
+        right
+        intro hN
+        have hon : c1.keyOn = true := a4.onSet hN
+        have hsl : c1.slur = false := a3.slur
+        have hk : c1.kind = .fm bank id := a3.kind
+        have hlast : (chKeyOn (chPitch (chEnv g1 c1).2.1).1).2 = [konWr bank id] := by
+          have he : chEnv g1 c1 = (g1, c1, []) := by simp [chEnv, hk, isPsg]
+          rw [he]
+          unfold chKeyOn
+          have h1 : (chPitch c1).1.keyOn = true := hon
+          have h2 : (chPitch c1).1.slur = false := hsl
+          have h3 : (chPitch c1).1.kind = .fm bank id := hk
+          simp only [h1, h2, Bool.not_false, and_self, if_true, vKeyOn, h3]
+          simp [ymW, konWr, kon]
+        unfold chAfter
+        simp only [hg1, Option.isSome_none, Bool.false_eq_true, if_false]
+        rw [hlast]
+        simp
+
+end
+
 /-! ### a song with one channel track -/
 /-- one channel track `(id, root)` followed by subroutine tracks -/
 def SingleTrack (song : Song) (id : Nat) (root : List Event) : Prop :=
@@ -434,6 +484,56 @@ theorem single_fm_keys (id : Nat) (hid : id < 6) (hsingle : SingleTrack song id 
   obtain ⟨f1, f2, f3, f4, f5⟩ := hfacts
   exact ⟨f1, fun h => f2 ((deliveredIn_iff _ _ _ _).mp h), fun h => (deliveredIn_iff _ _ _ _).mpr (f3 h),
     fun h => f4 ((deliveredIn_iff _ _ _ _).mp h), fun h => (deliveredIn_iff _ _ _ _).mpr (f5 h)⟩
+
+/-- **The key-on is the last write of its update** (one FM channel, no slur): in every update in
+whose ticks a note is delivered, the last register write is the key-on — the frequency word and
+every other write of the update precede it. -/
+theorem single_fm_kon_last (id : Nat) (hid : id < 6) (hsingle : SingleTrack song id root)
+    (cEnd : Core) (B : Nat) (hend : EndOK song root cEnd) (hB : 2 * B + 2 ≤ settleFuel)
+    (hpl : PlainHooks song root) (hns : NoSlurHooks song root) (m0 : LX)
+    (hrel0 : RelX song root cEnd B ⟨⟨.root, 0, []⟩, {}⟩ m0)
+    (k : Nat) (herr : ∀ j, j ≤ k + 1 → (updRun d song j (playSong d song).1).g.err = none)
+    (hN : DeliveredIn m0 (updRun d song k (playSong d song).1).ticks (updRun d song (k + 1) (playSong d song).1).ticks
+      (fun e => e.type = ev_NOTE)) :
+    (updWrs d song (playSong d song).1 k).getLast? = some (konWr (id / 3) (id % 3)) := by
+  have hcid : id % 3 < 3 := Nat.mod_lt _ (by decide)
+  have hbank : id / 3 < 2 := by omega
+  have hmk : (mkCh d id root).1.kind = .fm (id / 3) (id % 3) ∧ (mkCh d id root).1.root = root ∧
+      (mkCh d id root).1.ps.err = none ∧ (mkCh d id root).1.slur = false ∧ (mkCh d id root).1.keyOn = false ∧
+      (mkCh d id root).1.ps.core = ⟨.root, 0, []⟩ ∧ (mkCh d id root).1.ps.acc = {} ∧ drumOff (mkCh d id root).1.ps.ch := by
+    have hd : drumOff
+        ({ trackState := ((List.replicate ev_CHANNEL_CMD_COUNT (0 : Int)).set (chIdx ev_VOL_FINE) md_initial_vol).set
+            (chIdx ev_PAN) md_initial_pan, mask := [VOL_BIT] } : Chan) := by
+      unfold drumOff; decide
+    unfold mkCh
+    rw [if_pos hid]
+    exact ⟨rfl, rfl, rfl, rfl, rfl, rfl, rfl, hd⟩
+  have hu := single_update d song root id hsingle cEnd B hend hB
+    (fun c => ChOK root (id / 3) (id % 3) c ∧ c.keyOn = false)
+    (fun c hc => by
+      obtain ⟨r1, r2, r3, r4, r5, r6, r7, _⟩ := resetLoopCh_same c
+      exact ⟨⟨r2.trans hc.1.root, r1.trans hc.1.kind, r4.trans hc.1.err, by rw [r5]; exact hc.1.drum, r6.trans hc.1.slur⟩,
+        r7.trans hc.2⟩)
+    (fun _ ws _ wrs => (∃ e ∈ ws.flatten, e.type = ev_NOTE) → wrs.getLast? = some (konWr (id / 3) (id % 3)))
+    (fun n g c s' ws hc hg hrun => by
+      rcases chUpdate_keys_run d song root (id / 3) (id % 3) hcid hbank hpl hns n g c hc.1 hg hc.2 s' ws hrun with h | h
+      · exact Or.inl h
+      · obtain ⟨a1, a2, a3, a4, _⟩ := h
+        rcases chUpdate_kon_last_run d song root (id / 3) (id % 3) hcid hpl hns n g c hc.1 hg s' ws hrun with h' | h'
+        · exact Or.inl h'
+        · exact Or.inr ⟨a1, a2, ⟨a3, a4⟩, h'⟩)
+    ⟨⟨hmk.2.1, hmk.1, hmk.2.2.1, hmk.2.2.2.2.2.2.2, hmk.2.2.2.1⟩, hmk.2.2.2.2.1⟩ m0
+    (by rw [hmk.2.2.2.2.2.1, hmk.2.2.2.2.2.2.1]; exact hrel0) k herr
+  have hT := (updRun_ticks d song (playSong d song).1 k).1
+  rw [hT] at hN
+  have hN' := (deliveredIn_iff _ _ _ _).mp hN
+  cases hen : (lxAfter (updRun d song k (playSong d song).1).ticks m0).enabled with
+  | true => exact hu.1 hen hN'
+  | false =>
+    exfalso
+    obtain ⟨e, he, _⟩ := hN'
+    rw [lxRun_disabled _ _ hen] at he
+    cases he
 
 end
 
